@@ -29,9 +29,33 @@ type tr struct {
 	probe         bool // translating a non-go literal to see whether it has events
 }
 
+// translate translates a specialisation. A direct self call uses the
+// publication summary assumed so far (initially: publishes nothing); when the
+// computed summary is larger the translation is redone (monotone fixpoint).
+// Other recursion gets the pessimistic answer (see afterCall).
 func (w *world) translate(sp *spec) {
 	sp.state = 1
 	w.stack = append(w.stack, sp)
+	for iter := 0; ; iter++ {
+		sp.selfCalled = false
+		t := w.translateOnce(sp)
+		grown := false
+		for i, p := range t.publishes {
+			if p && !(i < len(sp.assumedPub) && sp.assumedPub[i]) {
+				grown = true
+			}
+		}
+		if !sp.selfCalled || !grown || iter > len(t.publishes)+1 {
+			break
+		}
+		sp.assumedPub = append([]bool(nil), t.publishes...)
+	}
+	sp.trivial = directlyTrivial(sp)
+	sp.state = 2
+	w.stack = w.stack[:len(w.stack)-1]
+}
+
+func (w *world) translateOnce(sp *spec) *tr {
 	t := &tr{w: w, sp: sp, env: env{}, blockEnvs: map[*node][]env{}}
 	var body *ast.BlockStmt
 	var ftype *ast.FuncType
@@ -93,9 +117,7 @@ func (w *world) translate(sp *spec) {
 			sp.retTag[i] = r
 		}
 	}
-	sp.trivial = directlyTrivial(sp)
-	sp.state = 2
-	w.stack = w.stack[:len(w.stack)-1]
+	return t
 }
 
 // directlyTrivial: no event, every callee already known to be trivial
